@@ -132,6 +132,8 @@ pub fn bursts() -> Vec<Burst> {
     // (one channel only: replies about several channels come in hash order)
     v.push(mk("list-vs-last-part", base_cfg(), 3, users3(), vec![], vec![(0, "JOIN #v")], vec![(0, vec!["PART #v"]), (1, vec!["LIST"])]));
     v.push(mk("names-vs-last-part", base_cfg(), 3, users3(), vec![], vec![(0, "JOIN #v")], vec![(0, vec!["PART #v"]), (1, vec!["NAMES"])]));
+    // two operators take each other's rank away at the same time: one of them is too late
+    v.push(mk("deop-vs-deop", base_cfg(), 3, users3(), vec![], vec![(0, "JOIN #c"), (1, "JOIN #c"), (2, "JOIN #c"), (0, "MODE #c +o bob"), (0, "MODE #c +o carol")], vec![(1, vec!["MODE #c -o carol"]), (2, vec!["MODE #c -o bob"])]));
     v.push(mk("quit-vs-invite", base_cfg(), 3, users3(), vec![], vec![(0, "JOIN #c"), (1, "JOIN #c")], vec![(0, vec!["INVITE carol #c"]), (2, vec!["QUIT"])]));
     v
 }
